@@ -64,10 +64,12 @@ CLAIMS = {
         ref="§4 C07"),
     "C08": dict(
         text="-bin classification for all ASCII keys <= 7 bytes; typed accessors (get/get_bin/iter) never cross ASCII/binary on a real "
-             "one-entry map; empty binary value round trip.",
-        note="Outside: reserved-name stripping on 2-entry maps and base64 values of 1..3 bytes (attempted as optional harnesses; the real "
-             "HeaderMap::remove and the base64 engine with symbolic bytes exhaust memory here), repeated keys, the wire path.",
-        ref="§4 C08"),
+             "one-entry map; a peer's binary value decodes to the bytes of an arithmetic reference whether it is '='-padded or not (all "
+             "canonical 2- and 3-character quanta); empty binary value round trip.",
+        note="Outside: reserved-name stripping on 2-entry maps, the base64 *encode* side for values of 1..3 bytes and repeated keys of an "
+             "error status (thorough-tier attempts; HeaderMap::remove on populated maps and String growth with symbolic bytes exhaust "
+             "the solver's memory here), the wire path.",
+        ref="§4 C08, §10.6"),
     "C09": dict(
         text="duration_to_grpc_timeout writes a (value, unit) with value <= 99_999_999, value*unit <= requested < (value+1)*unit and the finest "
              "fitting unit, for ALL durations up to 99_999_999 hours (formatter call replaced by a recorder); try_parse_grpc_timeout == the "
@@ -88,18 +90,19 @@ CLAIMS = {
         note="Outside: tower Buffer worker, hyper connection tasks, Endpoint::connect*: the end-to-end 'every call completes'.",
         ref="§4 C14"),
     "C16": dict(
-        text="Server-side grpc-web kernels: the base64 request decoder consumes exactly the largest multiple-of-4 prefix and equals an "
-             "arithmetic reference for all alphabet strings of 3/4/6 characters; the trailers frame (0x80, BE32 length, name:value CRLF "
-             "lines) lists every trailer value including repeated names.",
-        note="Outside: RequestKind classification and coerce_request/response (HeaderMap lookups), payloads > 6 characters.",
-        ref="§4 C16"),
+        text="Server-side grpc-web kernels: request classification on a real header map (grpc-web iff one of the four content-types, "
+             "text iff a -text type, response text iff Accept is a -text type, otherwise Other(version)) for symbolic method and "
+             "version; the base64 request decoder consumes exactly the largest multiple-of-4 prefix and equals an arithmetic reference "
+             "for all alphabet strings of 3/4/6 characters.",
+        note="Outside: the trailers frame writer with repeated names (thorough-tier attempt), the 405/400/pass-through match in "
+             "GrpcWebService::call itself, payloads > 6 characters.",
+        ref="§4 C16, §10.6"),
     "C17": dict(
-        text="find_trailers == an independent frame walker for ALL buffers <= 12 bytes; decode_trailers_frame keeps full values (':' "
-             "inside) and repeated names; one poll of the client body loop, from any buffered prefix against any inner-body script: data "
-             "frames are whole message frames of the received bytes, a body cut inside a frame is an error (never a clean end, hang or "
-             "busy loop - loop bound checked), terminal after trailers/error/end, inner body never polled after its end.",
-        note="Outside: base64 responses on the client side (not implemented by tonic-web either), buffers > 12 bytes.",
-        ref="§4 C17"),
+        text="find_trailers == an independent frame walker for ALL buffers <= 12 bytes; trailers_frame_len (completeness of the trailers "
+             "frame, which the repaired client loop waits for) == reference for all buffers <= 10 bytes.",
+        note="Outside: one poll of the client body loop and decode_trailers_frame (thorough-tier attempts: the pin-projected loop plus "
+             "HeaderMap building runs out of solver memory), base64 responses on the client side (not implemented by tonic-web either).",
+        ref="§4 C17, §10.6"),
     "C20": dict(
         text="Narrowed to RetryInfo: for EVERY std Duration the retry delay that comes back through the protobuf Duration conversion is "
              "min(d, protobuf maximum) exactly, in both directions; optional: the Any encode/decode leg for RetryInfo.",
